@@ -265,6 +265,34 @@ func Run(r *ev.Run) {
 			}
 		}
 	}
+	// the dependency maps together (disjoint keys), and the draft-07-only fields under the draft-07 $schema
+	const d7 = "http://json-schema.org/draft-07/schema#"
+	gcs = append(gcs,
+		gcase{"DependencySchemas={x:int,y:false} DependencyStrings={a:[b]}", func() *jsonschema.Schema {
+			return &jsonschema.Schema{DependencySchemas: map[string]*jsonschema.Schema{"x": sub(2), "y": sub(1)}, DependencyStrings: map[string][]string{"a": {"b"}}}
+		}},
+		gcase{"Schema=draft-07 DependencySchemas={a:{required:[c]}} DependencyStrings={b:[a],c:[]}", func() *jsonschema.Schema {
+			return &jsonschema.Schema{Schema: d7, DependencySchemas: map[string]*jsonschema.Schema{"a": {Required: []string{"c"}}}, DependencyStrings: map[string][]string{"b": {"a"}, "c": {}}}
+		}},
+		gcase{"Schema=draft-07 ItemsArray=[int,false] AdditionalItems=int", func() *jsonschema.Schema {
+			return &jsonschema.Schema{Schema: d7, ItemsArray: []*jsonschema.Schema{sub(2), sub(1)}, AdditionalItems: sub(2)}
+		}},
+		gcase{"Schema=draft-07 ItemsArray=[{}] AdditionalItems=false", func() *jsonschema.Schema {
+			return &jsonschema.Schema{Schema: d7, ItemsArray: []*jsonschema.Schema{sub(0)}, AdditionalItems: sub(1)}
+		}},
+		gcase{"Schema=draft-07 ItemsArray=[] AdditionalItems=false", func() *jsonschema.Schema {
+			return &jsonschema.Schema{Schema: d7, ItemsArray: []*jsonschema.Schema{}, AdditionalItems: sub(1)}
+		}},
+		gcase{"Schema=draft-07 Definitions={a:int} AllOf=[{Ref:#/definitions/a}]", func() *jsonschema.Schema {
+			return &jsonschema.Schema{Schema: d7, Definitions: map[string]*jsonschema.Schema{"a": sub(2)}, AllOf: []*jsonschema.Schema{{Ref: "#/definitions/a"}}}
+		}},
+		gcase{"Schema=draft-07 Ref=#/definitions/a Definitions={a:int} MaxProperties=&0", func() *jsonschema.Schema {
+			return &jsonschema.Schema{Schema: d7, Ref: "#/definitions/a", Definitions: map[string]*jsonschema.Schema{"a": {Type: "object"}}, MaxProperties: ip(0)}
+		}},
+		gcase{"Schema=draft-07 Items={DependencyStrings={a:[b]},DependencySchemas={c:false}}", func() *jsonschema.Schema {
+			return &jsonschema.Schema{Schema: d7, Items: &jsonschema.Schema{DependencyStrings: map[string][]string{"a": {"b"}}, DependencySchemas: map[string]*jsonschema.Schema{"c": sub(1)}}}
+		}},
+	)
 	r.Rule("Go side: every exported Schema field populated in every way its Go type allows (empty / one / two element containers, pointers to zero and non-zero, *any to nil, RawMessage null, subschemas {} / false-form / nested), alone, nested one level down under items/properties/allOf, and every pair of fields (exclusivity rules respected): Marshal succeeds, Unmarshal of the result succeeds, re-Marshal is byte-identical (JSON-equal with PropertyOrder), every non-zero keyword and every Extra key is a key of the output (independent field->keyword table), original and round-tripped schema agree on Resolve outcome and on every pool instance. " +
 		"JSON side: every document of G-schema/2020 and G-schema/07 (quick: a stride) plus normalisation oddities: Unmarshal, Marshal, the result is JSON-equal to the input up to the documented normalisations and gives the same verdicts (also equal to R1). Non-trivial = every case (distinct by construction)")
 	r.Assume("documented Marshal errors (Extra key equal to a keyword, exclusivity violations) are not round-trip failures", "the check does not demand that empty containers be emitted; it demands that dropping them does not change the meaning")
@@ -320,6 +348,39 @@ func Run(r *ev.Run) {
 			for k := range s.Extra {
 				if !keys[k] {
 					fail("Extra key dropped", map[string]any{"key": k, "json": string(b1)})
+				}
+			}
+		}
+		// O4': what Marshal writes for a child inside its parent is what it writes for the child alone
+		var top map[string]json.RawMessage
+		if json.Unmarshal(b1, &top) == nil {
+			cmp := func(where string, child *jsonschema.Schema, got json.RawMessage) {
+				if child == nil {
+					return
+				}
+				cb, cerr := json.Marshal(child)
+				if cerr != nil {
+					return
+				}
+				a, e1 := ref.Parse(string(cb))
+				b, e2 := ref.Parse(string(got))
+				if e1 != nil || e2 != nil || a.Canon() != b.Canon() {
+					fail("child marshals differently inside its parent", map[string]any{"where": where, "alone": string(cb), "inside": string(got)})
+				}
+			}
+			if s.Items != nil {
+				cmp("items", s.Items, top["items"])
+			}
+			var props map[string]json.RawMessage
+			if json.Unmarshal(top["properties"], &props) == nil {
+				for k, c := range s.Properties {
+					cmp("properties/"+k, c, props[k])
+				}
+			}
+			var all []json.RawMessage
+			if json.Unmarshal(top["allOf"], &all) == nil && len(all) == len(s.AllOf) {
+				for k, c := range s.AllOf {
+					cmp(fmt.Sprintf("allOf/%d", k), c, all[k])
 				}
 			}
 		}
@@ -445,6 +506,15 @@ func oddities() []string {
 		`"exclusiveminimum":1`, `"ExclusiveMaximum":0`, `"$DynamicRef":"#nope"`, `"$dynamicref":"#nope"`, `"minitems":5`, `"maxProperties ":0`, `"propertynames":false`, `"prefixitems":[false]`, `"dependentrequired":{"a":["zz"]}`, `"readonly":"yes"`, `"contentschema":1`, `"multipleof":7`, `"patternproperties":{"(":1}`} {
 		out = append(out, `{`+kv+`}`, `{"type":"string",`+kv+`}`, `{"items":{`+kv+`}}`)
 	}
+	// numbers that float64 cannot hold exactly, or at all
+	for _, n := range []string{`9007199254740993`, `12345678901234567890`, `0.1000000000000000000001`, `-9007199254740993`, `1e400`, `-1e400`, `1e-400`} {
+		for _, slot := range []string{`{"const":%s}`, `{"enum":[%s]}`, `{"examples":[%s]}`, `{"default":%s}`, `{"x":%s}`, `{"x":[{"a":%s}]}`, `{"minimum":%s}`, `{"multipleOf":%s}`, `{"properties":{"a":{"const":%s,"x":%s}}}`} {
+			out = append(out, strings.ReplaceAll(slot, "%s", n))
+		}
+	}
+	// $defs next to definitions (both are legal members of a 2020-12 document)
+	out = append(out, `{"$defs":{"a":true},"definitions":{"b":true}}`, `{"$defs":{},"definitions":{}}`, `{"properties":{"p":{"$defs":{"a":{"type":"integer"}},"definitions":{"a":{"type":"string"}},"$ref":"#/properties/p/$defs/a"}}}`,
+		`{"$schema":"http://json-schema.org/draft-07/schema#","definitions":{"a":{"type":"integer"}},"$defs":{"b":false}}`)
 	out = append(out, `{"items":[{"type":"integer"},true,false]}`, `{"items":[{}]}`, `{"$schema":"http://json-schema.org/draft-07/schema#","items":[{"type":"integer"}],"additionalItems":false}`,
 		`{"$schema":"http://json-schema.org/draft-07/schema#","dependencies":{"a":["b"],"c":{"required":["d"]}}}`)
 	return out
